@@ -576,6 +576,14 @@ FINDINGS = _build() + [
          pattern=dict(check="fixpoint", quote_in_default=True, field="parse", observed="raises SyntaxError", fmt="docstring"),
          what="[R-default-quote] Google/NumPy docstring with a doc-derived type: the second round re-reads the unescaped \"say \"hi\"\" prose default and raises SyntaxError",
          site="cdd/shared/pure_utils.py:quote", example="{'alpha': {'typ': 'Optional[str]', 'doc': 'an integer count', 'default': 'say \"hi\"'}} through docstring-google twice"),
+    dict(id="C08-trigger-word-recasts-empty-string-default", property="C08",
+         pattern=dict(check="fixpoint", fmt="docstring", style={"in": ["google", "numpydoc"]}, field="default", default_kind="emptystr", expected="emptystr", observed="bool", typ_class="bool", round=2),
+         what="[R-trigger-type-recasts-default] 'whether' in the description makes the emitter write the type bool; round 2 casts the empty-string default with bool('') -> False",
+         site="cdd/docstring/utils/parse_utils.py:parse_adhoc_doc_for_typ + cdd/shared/defaults_utils.py:_parse_out_default_and_doc", example="{'alpha': {'typ': 'str', 'doc': 'whether to do it', 'default': ''}} through docstring-google twice"),
+    dict(id="C08-trigger-word-int-cast-of-empty-string-default-raises", property="C08",
+         pattern=dict(check="fixpoint", fmt="docstring", style={"in": ["google", "numpydoc"]}, field="parse", default_kinds="emptystr", observed="raises ValueError", typ_classes="int", round=2),
+         what="[R-trigger-type-recasts-default] 'integer' in the description makes the emitter write the type int; round 2 casts the empty-string default with int('') and raises ValueError",
+         site="cdd/docstring/utils/parse_utils.py:parse_adhoc_doc_for_typ + cdd/shared/defaults_utils.py:_parse_out_default_and_doc", example="{'alpha': {'typ': 'str', 'doc': 'an integer count', 'default': ''}} through docstring-google twice"),
     dict(id="C08-listof-trigger-respaces-hyphenated-default", property="C08",
          pattern=dict(check="fixpoint", fmt={"in": ["class", "pydantic"]}, field="default", expected="str", observed="str", typ_class="list", round=2),
          what="[R-class-listof-trigger] 'list of' in the description turns the type into list; the string default is then re-rendered as code on round 2 ('x-y' -> 'x - y', 'a b' -> code)",
@@ -596,5 +604,11 @@ FINDINGS = _build() + [
          example="{'alpha': {'typ': 'pkg.Kind', 'default': '```pkg.Kind.A```'}} through function(type_annotations=False, emit_as_kwonlyargs=True) four times"),
 ]
 FIXED = [
+    'fixed: property=C08 fc46805 a string default containing a full stop was cut again on round 2 (doc-derived type paths)',
+    'fixed: property=C08 26237d2 second round re-read the unescaped "say "hi"" prose default and raised SyntaxError',
     "fixed: property=C08 64ad734 function format, interface with an undocumented parameter (or a return entry): round 2 appended the text 'None' to the docstring header / return description ('Summary line.None'), growing every round",
 ]
+
+# patterns of defects that have since been repaired in the repository (see FIXED): no longer known findings
+FIXED_IDS = ['C08-double-quote-in-default-later-round-raises', 'C08-string-default-with-full-stop-keeps-shrinking']
+FINDINGS = [f for f in FINDINGS if f["id"] not in FIXED_IDS]
